@@ -36,7 +36,8 @@ type headerRes struct {
 // ExecOpts: when Mutate is set, every slice or map handed to the library and
 // every slice it returns is overwritten in place afterwards (C11).
 type ExecOpts struct {
-	Mutate bool
+	Mutate    bool
+	NoObserve bool // build the objects only: no observer is ever called on them (race driver, cold start)
 }
 
 type Exec struct {
@@ -371,7 +372,9 @@ func (e *Exec) evalStep(s Step) (res interface{}) {
 		}
 	case "HB":
 		b, ok := ast.VerifHeaderBytes(string(s.S), int(s.N))
-		return headerRes{b, ok}
+		// the pool keeps a copy; what the library handed out is the caller's and is written over afterwards (Mutate)
+		e.scratch = append(e.scratch, b)
+		return headerRes{append([]byte(nil), b...), ok}
 	case "SP":
 		// a watchdog: a parse that never returns is an observation ("G"), not a dead harness
 		type out struct {
@@ -500,6 +503,9 @@ func (e *Exec) Run(steps []Step) []string {
 		}
 		e.lent = e.lent[:0]
 		e.Pool = append(e.Pool, r)
+		if e.Opts.NoObserve {
+			continue
+		}
 		e.Early = append(e.Early, e.observe(r))
 		if e.Opts.Mutate {
 			for _, b := range e.scratch {
@@ -509,6 +515,9 @@ func (e *Exec) Run(steps []Step) []string {
 		}
 	}
 	out := make([]string, len(e.Pool))
+	if e.Opts.NoObserve {
+		return out
+	}
 	for i, x := range e.Pool {
 		out[i] = e.observe(x)
 	}
